@@ -294,14 +294,24 @@ func convType(fun ast.Expr) string {
 	return ""
 }
 
-func externType(name string) string {
-	switch name {
-	case "ext_clkNow":
-		return "Int"
-	case "ext_Pow":
-		return "F64.F64"
+// powType: math.Pow is a parameter of function type, applied to the translated arguments of each
+// call site (eighth generation): the tie theorems see the arguments.
+const powType = "F64.F64 → F64.F64 → F64.F64"
+
+// externOfCallee: the parameter of the caller that stands for the callee's external value e
+// ("name : Type") read during the call at pos. Function-typed parameters (deterministic library
+// functions: same arguments, same value) and the iteration budget are handed on under their own
+// name; every other external value is a reading of mutable state outside the function and gets a
+// parameter of its own per call site.
+func (c *leafCtx) externOfCallee(pos token.Pos, calleeLean, e string) string {
+	parts := strings.SplitN(e, " : ", 2)
+	n := parts[0]
+	if !sharedExtern(n) {
+		short := strings.ReplaceAll(calleeLean[strings.Index(calleeLean, "_")+1:], ".", "_")
+		n = c.siteName(pos+token.Pos(len(n)), "ext_"+short+"_"+strings.TrimPrefix(n, "ext_"))
 	}
-	return "UInt64"
+	c.addExtern(n, parts[1])
+	return n
 }
 
 func (c *leafCtx) addExtern(name, typ string) {
@@ -643,9 +653,10 @@ func (c *leafCtx) expr(e ast.Expr, want string) (string, string) {
 						return "(F64.sqrt " + a + ")", "F64"
 					}
 				case "timebase.Epoch":
-					if len(x.Args) == 0 {
-						c.addExtern("ext_Epoch", "UInt64")
-						return "ext_Epoch", "UInt64"
+					if len(x.Args) == 0 { // a reading of the global clock's epoch: one parameter per call site
+						n := c.siteName(x.Pos(), "ext_Epoch")
+						c.addExtern(n, "UInt64")
+						return n, "UInt64"
 					}
 				case "math.Ceil":
 					if len(x.Args) == 1 {
@@ -653,9 +664,11 @@ func (c *leafCtx) expr(e ast.Expr, want string) (string, string) {
 						return "(F64.ceil " + a + ")", "F64"
 					}
 				case "math.Pow":
-					if len(x.Args) == 2 { // not correctly rounded: its result is an input (one value per call of the leaf)
-						c.addExtern("ext_Pow", "F64.F64")
-						return "ext_Pow", "F64"
+					if len(x.Args) == 2 { // not correctly rounded: the function itself is an input, applied to the arguments of this call
+						a, _ := c.expr(x.Args[0], "F64")
+						b, _ := c.expr(x.Args[1], "F64")
+						c.addExtern("ext_Pow", powType)
+						return "(ext_Pow " + a + " " + b + ")", "F64"
 					}
 				}
 			}
@@ -663,12 +676,14 @@ func (c *leafCtx) expr(e ast.Expr, want string) (string, string) {
 			if inner, ok := f.X.(*ast.SelectorExpr); ok && inner.Sel.Name == "clk" {
 				if id, ok := inner.X.(*ast.Ident); ok && id.Name == c.recv && c.recv != "" && len(x.Args) == 0 {
 					switch f.Sel.Name {
-					case "Epoch":
-						c.addExtern("ext_clkEpoch", "UInt64")
-						return "ext_clkEpoch", "UInt64"
+					case "Epoch": // each call is a reading of its own (the clock is shared with other goroutines)
+						n := c.siteName(x.Pos(), "ext_clkEpoch")
+						c.addExtern(n, "UInt64")
+						return n, "UInt64"
 					case "Now":
-						c.addExtern("ext_clkNow", "Int")
-						return "ext_clkNow", "GoTime"
+						n := c.siteName(x.Pos(), "ext_clkNow")
+						c.addExtern(n, "Int")
+						return n, "GoTime"
 					}
 				}
 			}
@@ -702,8 +717,7 @@ func (c *leafCtx) expr(e ast.Expr, want string) (string, string) {
 			args = append(args, s)
 		}
 		for _, e := range c.extOf[name] {
-			c.addExtern(e, externType(e))
-			args = append(args, e)
+			args = append(args, c.externOfCallee(x.Pos(), ln, e))
 		}
 		if c.recvOf[name] {
 			c.fail("call of a receiver-updating method inside an expression")
@@ -1139,8 +1153,7 @@ func (c *leafCtx) block(stmts []ast.Stmt, tail string, ind string) string {
 							args = append(args, s)
 						}
 						for _, e := range c.extOf[name] {
-							c.addExtern(e, externType(e))
-							args = append(args, e)
+							args = append(args, c.externOfCallee(ce.Pos(), ln, e))
 						}
 						return "let " + c.recv + " : " + leanTypeName(c.vars[c.recv]) + " := (" + ln + " " + strings.Join(args, " ") + ")\n" + ind + c.block(rest, tail, ind)
 					}
@@ -1424,7 +1437,7 @@ func emitLeaves(repo string, parsed map[string][]*ast.File, fset *token.FileSet,
 				continue
 			}
 			c := &leafCtx{dir: dir, files: files, ev: ev, structs: structs, vars: map[string]string{}, leafOf: leafOf, retOf: retOf,
-				extOf: extOf, recvOf: recvOf}
+				extOf: extOf, recvOf: recvOf, sites: map[token.Pos]string{}, nsite: map[string]int{}}
 			var params []string
 			addParam := func(n string, t ast.Expr) {
 				lt := c.leanType(t)
@@ -1546,7 +1559,7 @@ func emitLeaves(repo string, parsed map[string][]*ast.File, fset *token.FileSet,
 			retOf[l.fn] = ret
 			recvOf[l.fn] = c.recv != ""
 			for _, e := range c.externs {
-				extOf[l.fn] = append(extOf[l.fn], strings.SplitN(e, " : ", 2)[0])
+				extOf[l.fn] = append(extOf[l.fn], e)
 			}
 			li := &leafInfo{lean: l.lean, ret: ret, externs: append([]string{}, c.externs...), nparams: -1, file: "Leaf"}
 			if c.panics {
